@@ -65,7 +65,9 @@ def sampler_configs(draw, classes=CLASSES, max_d=4, target_kinds=("gauss", "gaus
                       # whole-number inverse masses may be given as Python ints / integer arrays
                       "mass_int": draw(st.sampled_from([False, False, False, True]))}
     if cls == "ensemble":
-        cfg["ens"] = {"extra_walkers": draw(st.integers(1, 6)), "alpha": draw(st.sampled_from([2.0, 1.5, 3.0, draw(st.floats(1.2, 5))]))}
+        cfg["ens"] = {"extra_walkers": draw(st.integers(1, 6)), "alpha": draw(st.sampled_from([2.0, 1.5, 3.0, draw(st.floats(1.2, 5))])),
+                      # whole-number starting positions may be held in an integer array
+                      "pos_int": draw(st.sampled_from([False, False, False, True]))}
     if cls in ("gibbs", "metropolis"):
         lim = []
         if bounds != "never":
@@ -197,6 +199,11 @@ def build(cfg, target=None, record=True):
                 pos = start[None, :] + s[None, :] * g.normal(size=(n_w, d))
             else:
                 pos = box[0][None, :] + g.uniform(0.05, 0.95, size=(n_w, d)) * (box[1] - box[0])[None, :]
+            if cfg["ens"].get("pos_int"):
+                ipos = np.round(pos)
+                inside = box is None or (np.all(ipos >= box[0]) and np.all(ipos <= box[1]))
+                if inside and np.linalg.matrix_rank(ipos - ipos.mean(axis=0)) == d and len({tuple(r) for r in ipos.tolist()}) == n_w:
+                    pos = ipos.astype(np.int64)
             info["positions"] = pos
             ch = EnsembleSampler(posterior=tgt, starting_positions=pos, alpha=cfg["ens"]["alpha"], bounds=bounds_arg, **kw)
         else:
